@@ -26,7 +26,10 @@ EXPECT_TRUE_A = [
     "try_for_each_concurrent_control_mut.send", "try_for_each_concurrent_control_mut_with.send",
 ]
 EXPECT_TRUE_B = ["FnGraph.send", "FnGraph.sync", "FnRef.send", "stream.send", "stream_with.send"]
-CONTROLS = {"control.Rc.send": False, "control.Rc.sync": False, "control.u8.send": True, "control.fold_async.send": False}
+CONTROLS = {"control.Rc.send": False, "control.Rc.sync": False, "control.u8.send": True, "control.fold_async.send": False,
+            # the caller's futures and error type are Send but deliberately NOT Sync
+            "control.error_type.send": True, "control.error_type.sync": False,
+            "control.user_future.send": True, "control.user_future.sync": False}
 
 
 def send_sync_errors(stderr):
